@@ -21,4 +21,6 @@ func init() {
 	twin("C01", "iscloseable-if-chain", "proxy.go", "\tswitch err {\n\tcase io.EOF, io.ErrClosedPipe, errClose:\n\t\treturn true\n\t}\n", "\tif err == io.EOF || err == io.ErrClosedPipe {\n\t\treturn true\n\t}\n\tif errClose == err {\n\t\treturn true\n\t}\n")
 	mut("C01", "body-dropped-before-roundtrip", "proxy.go", "\t// Not a CONNECT request\n", "\t// Not a CONNECT request\n\tif req.ContentLength == 0 {\n\t\treq.Body = http.NoBody\n\t}\n", "C01.R4", "Body")
 	twin("C01", "remote-addr-via-local", "proxy.go", "\treq.RemoteAddr = conn.RemoteAddr().String()\n", "\tra := conn.RemoteAddr().String()\n\treq.RemoteAddr = ra\n")
+	mut("C01", "close-on-unknown-length", "proxy.go", "\tif req.Close || res.Close || p.Closing() {", "\tif req.Close || res.Close || res.ContentLength < 0 || p.Closing() {", "C01.R3", "marked close only")
+	mut("C01", "errclose-without-close-request", "proxy.go", "\tvar closing error\n", "\tvar closing error\n\tif res.StatusCode >= 500 {\n\t\tclosing = errClose\n\t}\n", "C01.R3", "ends the connection only")
 }
